@@ -5,7 +5,8 @@
 // tier: 4) over 10 entry kinds {valid record, valid deletion marker, valid just below the future bound, content tampered after signing, signatures
 // of another entry, author signature by another author, validly signed for another namespace, 11 minutes in the future, empty hash with non-zero
 // length, non-empty hash with zero length}, as one range-item part and split into two parts at every position; the replica must store, count as
-// head, and announce exactly the valid ones, in both parts, at every position. The same entries through the single remote insert get the same verdict.
+// head, and announce exactly the valid ones, in both parts, at every position. The same entries through the single remote insert get the same verdict,
+// and through the store actor (SyncHandle::insert_remote, the gossip path) only the valid ones are counted in the inserted-entries metrics.
 #[cfg(test)]
 mod verif_rp_c03_recon {
     use super::*;
@@ -124,5 +125,31 @@ mod verif_rp_c03_recon {
             assert_eq!(n, is_valid(kind) as usize, "WITNESS single remote insert of a {} entry leaves {n} rows", NAMES[kind]);
             assert_eq!(rx.try_recv().is_ok(), is_valid(kind), "WITNESS single remote insert of a {} entry: announcement does not match validity", NAMES[kind]);
         }
+    }
+
+    /// the same ten kinds through the store actor (the path gossip takes): only valid entries are counted as inserted
+    #[tokio::test]
+    async fn actor_counts_only_valid_remote_inserts() {
+        use crate::actor::{OpenOpts, SyncHandle};
+        let mut rng = rand::rng();
+        let ctx = Ctx { ns: NamespaceSecret::new(&mut rng), ns2: NamespaceSecret::new(&mut rng), author: Author::new(&mut rng), other: Author::new(&mut rng), now: system_time_now() };
+        let handle = SyncHandle::spawn(Store::memory(), None, "verif".to_string());
+        handle.import_namespace(ctx.ns.clone().into()).await.unwrap();
+        let (tx, rx) = async_channel::bounded(64);
+        handle.open(ctx.ns.id(), OpenOpts::default().sync().subscribe(tx)).await.unwrap();
+        let (mut count, mut size, mut events) = (0u64, 0u64, 0usize);
+        for kind in 0..KINDS {
+            let e = make(&ctx, kind, kind);
+            let len = e.content_len();
+            let r = handle.insert_remote(ctx.ns.id(), e, [7u8; 32], ContentStatus::Missing).await;
+            assert_eq!(r.is_ok(), is_valid(kind), "WITNESS remote insert of a {} entry through the store actor returns {r:?}", NAMES[kind]);
+            if is_valid(kind) { count += 1; size += len; events += 1; }
+            assert_eq!(handle.metrics().new_entries_remote.get(), count, "WITNESS after the remote insert of a {} entry the actor counts {} inserted remote entries, {count} were valid", NAMES[kind], handle.metrics().new_entries_remote.get());
+            assert_eq!(handle.metrics().new_entries_remote_size.get(), size, "WITNESS after the remote insert of a {} entry the counted size of inserted remote entries is {} instead of {size}", NAMES[kind], handle.metrics().new_entries_remote_size.get());
+            assert_eq!(rx.len(), events, "WITNESS after the remote insert of a {} entry the subscriber holds {} events, expected {events}", NAMES[kind], rx.len());
+        }
+        let mut store = handle.shutdown().await.unwrap();
+        let held = store.get_many(ctx.ns.id(), Query::all().include_empty()).unwrap().count();
+        assert_eq!(held as u64, count, "WITNESS the store handed back by the actor holds {held} entries, {count} valid ones were inserted");
     }
 }
